@@ -10,7 +10,9 @@ import gen_lua
 
 ASSUMPTIONS = ['the lexical rules are Spec/LuaLex.lean (Lua 5.2 + PICO-8 extensions; see C07); programs come from the dialect generator',
                'the renaming must be a one-to-one function within each program; which names are chosen and kept (reserved names, histories) is C02']
-TRUSTED_EXTRA = ['modelled by hand: LuaMinifyTokenWriter.to_lines/_to_chunks/_needs_space, MinifyNameFactory (lua.py); lexer model of C07']
+TRUSTED_EXTRA = ['modelled by hand: LuaMinifyTokenWriter.to_lines/_to_chunks/_needs_space, MinifyNameFactory (lua.py); lexer model of C07',
+                 'minify_relex_parsed / parsed_noFusable speak about the parser MODEL (grammar data run by the Peg interpreter): it is tied to parser.py by '
+                 "C08's correspondence on full trees and by C08.census_matches_grammar (regenerated per-method token census)"]
 
 # one representative per token class for the exhaustive adjacency stream
 REPS = [b'+=', b'-=', b'*=', b'/=', b'%=', b'..=', b'==', b'~=', b'!=', b'<=', b'>=', b'&', b'|', b'^^', b'~', b'<<>', b'>>>', b'>><',
